@@ -131,6 +131,11 @@ pub fn gen_unary(r: &mut Rng, k: u64) -> OpCase {
     let vals = match dom {
         0 => rand_ints(r, n, -4, 4),
         1 => (0..n).map(|_| 0.25 * r.int(-12, 12)).collect(),
+        // positive arguments far from 1, below the machine epsilon and above its reciprocal: exact powers of two
+        2 if r.chance(1, 8) => {
+            let lim: i64 = if crate::cg::IS_F32 { 20 } else { 60 };
+            (0..n).map(|_| (2.0f64).powi(r.int(-lim, lim) as i32)).collect()
+        }
         2 => {
             // integer exponents are defined for negative bases too
             if matches!(kind, OpKind::Powf(e) if e.fract() == 0.0) && r.chance(1, 2) {
